@@ -1,12 +1,53 @@
 /-
-  Model of the svd solver (history-free answers).  STUB: to be replaced by the real model.
+  Model of the svd solver: `AdjSVD<double,int,Exception::matvec>` (lib/gnu_gama/adj/adj_svd.h)
+  on top of `GNU_gama::SVD` (lib/matvec/svd.h) — history-free answers of a fresh object.
+
+  A fresh `AdjSVD` (harness: `min_x…` first, then `reset(A, b)`; `Adj::init_least_squares` does the
+  same) answers every query after `svd.reset(A)`, `svd()`:
+    `svd()`        : `Svd.decompose` (Svd/Decomp.lean; execution only), `decomposed = 1`,
+                     `set_inv_W()` (`Svd.invW` with `W_tol = Svd.wTol`), and when `defect > 0`:
+                     `minV = V_` and, if `minx == subset`, `min_subset_x()` (`Svd.minSubsetX`);
+    `solve()`      : `svd.solve(b, x)`, `r = A x − b`;
+    `sum_of_squares` = `r·r` (AdjBaseFull); `defect()` = `svd.nullity()`;
+    `lindep(i)`    = `inv_W_(i) == 0` — the i-th singular value, NOT unknown i (finding F7,
+                     Props/C20/Svd.lean);
+    `q_xx/q_bb/q_bx` : solve first, then the SVD sums (`BadRank` outside the index range);
+    `q0_xx = q_xx` (AdjBase default); `cond()` as coded.
+  A throw inside `svd()` (`NoConvergence`, `BadRegularization`) is thrown by every query of a
+  fresh object.  `Reg.none` = `Reg.all` (a fresh `SVD` has `minx = all`).
+
+  Code as it is after the fix commits 55cd4d5 (`min_x(n_list, list)` no longer shadows `n`),
+  0604f50 (`is_solved = false` in `min_x`), 8e8bcb2 (`min_x()` restores `V` only when saved) —
+  all three concern histories (C04), not the fresh-object answers modelled here.
+
+  `svdSolveCert` is the same solver with the factors supplied from outside: the object of the
+  certificate theorems (`C01_svd_cert`, `C03_svd_*`, `C20_svd_*`).
+
+  Core Lean only.
 -/
 import Gama.Model.Ls.Common
+import Gama.Model.Ls.Svd.Post
+import Gama.Model.Ls.Svd.Decomp
 namespace Gama.Ls
 variable {K : Type} [Scalar K]
 
+/-- the solver with given factors `(U, W, V)` and tolerance (post-decomposition model) -/
+def svdSolveCert (fixed : Bool) (tol : K) (d : Svd.Dec K) (p : Problem K) : Except ErrKind (Answer K) :=
+  Svd.answerOf fixed tol p.m p.n p.dense p.rhs p.reg d
+
 /-- answers of a fresh solver object of this algorithm on problem `p` (solver-level entry:
-    sparse solvers take (A, b, C); full solvers take dense A, b with unit covariance) -/
-def svdSolve : Solver K := fun _ => .error .NotModelled
+    dense A, b with unit covariance) -/
+def svdSolveWith (fixed : Bool) : Solver K := fun p =>
+  match Svd.decompose p.m p.n p.dense with
+  | .error e => .error e
+  | .ok d => svdSolveCert fixed Svd.wTol d p
+
+/-- the code as it is: `min_subset_x` refuses only on an EXACT zero (finding: a subset that does
+    not resolve the defect is refused only if rounding happens to produce exactly 0) -/
+def svdSolve : Solver K := svdSolveWith false
+
+/-- with the proposed repair `s <= W_tol·‖V_k‖` (notes/proposed/C20-svd-min-subset-tolerance.diff);
+    once the fix is committed in /repo, `svdSolve` becomes this -/
+def svdSolveFixed : Solver K := svdSolveWith true
 
 end Gama.Ls
